@@ -3,8 +3,11 @@
 (* Implementation-shaped model of the client handshake (C12):              *)
 (* diam/sm/client.go handshake() and diam/sm/cea.go handleCEA with the     *)
 (* errc channel.  One action per blocking point:                           *)
-(*   client goroutine : Send (write CER, loop head), RecvClosed /RecvErr   *)
-(*                      (select on errc), Timer (select on time.After)     *)
+(*   client goroutine : WriteCER (the CER is on the wire, loop head),      *)
+(*                      EnterSelect (the goroutine reaches its select: the *)
+(*                      peer may already have answered in between),        *)
+(*                      RecvClosed / RecvErr (select on errc), Timer       *)
+(*                      (select on time.After)                             *)
 (*   serve goroutine  : HandleCEA (read + dispatch a CEA), SendOnClosed    *)
 (*                      (a blocked sender whose channel is closed panics;  *)
 (*                      conn.serve recovers and closes the transport)      *)
@@ -18,7 +21,7 @@
 (***************************************************************************)
 EXTENDS Integers, Sequences, TLC
 CONSTANTS MaxRetx, MaxPeerMsgs, IgnoreAfterDone
-VARIABLES cli,      \* "start","sent","done_ok","done_err"
+VARIABLES cli,      \* "start","written","sent","done_ok","done_err"
           i,        \* loop counter
           errc,     \* "open","closed"
           srv,      \* serve goroutine: "idle","sendErr","panicked"
@@ -33,9 +36,11 @@ vars == <<cli, i, errc, srv, meta, inq, ncer, closed, npeer, appOK>>
 Init == /\ cli = "start" /\ i = 0 /\ errc = "open" /\ srv = "idle" /\ meta = FALSE /\ inq = <<>>
         /\ ncer = 0 /\ closed = FALSE /\ npeer = 0 /\ appOK = FALSE
 
-Send == /\ cli = "start" /\ i <= MaxRetx /\ ~closed
-        /\ ncer' = ncer + 1 /\ cli' = "sent"
-        /\ UNCHANGED <<i, errc, srv, meta, inq, closed, npeer, appOK>>
+WriteCER == /\ cli = "start" /\ i <= MaxRetx /\ ~closed
+            /\ ncer' = ncer + 1 /\ cli' = "written"
+            /\ UNCHANGED <<i, errc, srv, meta, inq, closed, npeer, appOK>>
+EnterSelect == /\ cli = "written" /\ cli' = "sent"
+               /\ UNCHANGED <<i, errc, srv, meta, inq, ncer, closed, npeer, appOK>>
 \* a write on a transport that has meanwhile been closed fails: handshake returns the error
 SendFails == /\ cli = "start" /\ i <= MaxRetx /\ closed
              /\ cli' = "done_err" /\ UNCHANGED <<i, errc, srv, meta, inq, ncer, closed, npeer, appOK>>
@@ -62,7 +67,7 @@ SendOnClosed == /\ srv = "sendErr" /\ errc = "closed" /\ srv' = "panicked" /\ cl
                 /\ UNCHANGED <<cli, i, errc, meta, inq, ncer, npeer, appOK>>
 AppAnswer == /\ cli = "done_ok" /\ srv = "idle" /\ inq = <<>> /\ ~closed /\ appOK' = TRUE
              /\ UNCHANGED <<cli, i, errc, srv, meta, inq, ncer, closed, npeer>>
-Next == Send \/ SendFails \/ RecvClosed \/ RecvErr \/ Timer \/ (\E k \in {"ok", "fail"} : Peer(k)) \/ HandleCEA \/ SendOnClosed \/ AppAnswer
+Next == WriteCER \/ EnterSelect \/ SendFails \/ RecvClosed \/ RecvErr \/ Timer \/ (\E k \in {"ok", "fail"} : Peer(k)) \/ HandleCEA \/ SendOnClosed \/ AppAnswer
 Spec == Init /\ [][Next]_vars
 
 \* HandshakeObs at design level
